@@ -2,11 +2,11 @@ package sim
 
 import (
 	"bytes"
-	"strings"
 	"encoding/hex"
 	"fmt"
 	"math/big"
 	"sort"
+	"strings"
 
 	mhub2types "github.com/MinterTeam/mhub2/module/x/mhub2/types"
 	sdk "github.com/cosmos/cosmos-sdk/types"
@@ -18,8 +18,8 @@ import (
 // C14 — votes aggregate only on identical events.
 type C14 struct {
 	BaseOracle
-	seen    map[string][]claimSeen // chain/nonce -> successful claims
-	swept   map[string]uint64      // chain -> highest true event nonce whose mutations were enumerated
+	seen  map[string][]claimSeen // chain/nonce -> successful claims
+	swept map[string]uint64      // chain -> highest true event nonce whose mutations were enumerated
 }
 
 type claimSeen struct {
